@@ -25,6 +25,8 @@ VARIABLES l,          \* next line of Trace
           prevEvald, prevCands,     \* the same for the previous cycle (antecedent bookkeeping)
           pendErr,    \* an action of the last executed rule failed: "" or the rule name
           lastExec, done,
+          pre,        \* the state before the rule announced last: [f, ret, comp] (a cancellation seen by the check at the start of
+                      \* RuleEntry.Execute means that the announced rule does not run)
           viol,       \* flags raised: <<code, trace id, line>>
           marks,      \* antecedents met: code -> number of traces in which it occurred (non-triviality evidence)
           seen,       \* antecedent codes already counted for the current trace
@@ -33,7 +35,7 @@ VARIABLES l,          \* next line of Trace
           hFresh      \* the action list being executed holds an invalidation: the usage of the epoch it leaves is unknown
 
 vars == <<l, tid, mode, rules, maxc, flag, facts, retracted, complete, cancelled, cyc, evald, cands, execd,
-          prevEvald, prevCands, pendErr, lastExec, done, viol, marks, seen, hOn, hVars, hUsed, hLimit, hFresh>>
+          prevEvald, prevCands, pendErr, lastExec, done, pre, viol, marks, seen, hOn, hVars, hUsed, hLimit, hFresh>>
 hvars == <<hOn, hVars, hUsed, hLimit, hFresh>>
 
 T == Trace[l]
@@ -105,14 +107,14 @@ Invalidations(acts, i, s) ==
 Init == /\ l = 1 /\ tid = -1 /\ mode = "none" /\ rules = <<>> /\ maxc = 0 /\ flag = FALSE
         /\ facts = <<>> /\ retracted = {} /\ complete = FALSE /\ cancelled = FALSE /\ cyc = 0
         /\ evald = {} /\ cands = {} /\ execd = FALSE /\ prevEvald = {} /\ prevCands = {}
-        /\ pendErr = "" /\ lastExec = "" /\ done = TRUE /\ viol = {} /\ marks = <<>> /\ seen = {}
+        /\ pendErr = "" /\ lastExec = "" /\ pre = [f |-> <<>>, ret |-> {}, comp |-> FALSE] /\ done = TRUE /\ viol = {} /\ marks = <<>> /\ seen = {}
         /\ hOn = FALSE /\ hVars = {} /\ hUsed = 0 /\ hLimit = 1 /\ hFresh = FALSE
 
 Begin == /\ Is("begin")
          /\ tid' = T.id /\ mode' = T.mode /\ rules' = T.rules /\ maxc' = T.max /\ flag' = T.flag
          /\ facts' = T.facts /\ retracted' = {} /\ complete' = FALSE /\ cancelled' = FALSE /\ cyc' = 0
          /\ evald' = {} /\ cands' = {} /\ execd' = FALSE /\ prevEvald' = {} /\ prevCands' = {}
-         /\ pendErr' = "" /\ lastExec' = "" /\ done' = FALSE
+         /\ pendErr' = "" /\ lastExec' = "" /\ pre' = [f |-> <<>>, ret |-> {}, comp |-> FALSE] /\ done' = FALSE
          /\ seen' = IF T.call > 0 THEN {"C08"} ELSE {}
          /\ marks' = IF T.call > 0 THEN [c \in DOMAIN marks \cup {"C08"} |-> (IF c \in DOMAIN marks THEN marks[c] ELSE 0) + (IF c = "C08" THEN 1 ELSE 0)]
                      ELSE marks
@@ -124,7 +126,7 @@ SetupFailed == /\ Is("setup-failed")
                /\ PrintT(<<"FLAG", "SETUP-" \o T.variant, T.id, l>>)
                /\ viol' = viol \cup {<<"SETUP-" \o T.variant, T.id, l>>}
                /\ UNCHANGED <<tid, mode, rules, maxc, flag, facts, retracted, complete, cancelled, cyc, evald,
-                              cands, execd, prevEvald, prevCands, pendErr, lastExec, done, marks, seen, hvars>>
+                              cands, execd, prevEvald, prevCands, pendErr, lastExec, pre, done, marks, seen, hvars>>
 
 CycleEv ==
   /\ Is("cycle")
@@ -141,7 +143,7 @@ CycleEv ==
   /\ Mark(IF hOn /\ hUsed >= 1 /\ ~hFresh /\ cyc >= 1 THEN {"C13"} ELSE {})
   \* the calls of an invalidating action list may have come before the invalidation: the new epoch counts from 0
   /\ IF hFresh THEN hUsed' = 0 /\ hLimit' = 1 /\ hFresh' = FALSE ELSE UNCHANGED <<hUsed, hLimit, hFresh>>
-  /\ UNCHANGED <<tid, mode, rules, maxc, flag, retracted, complete, cancelled, cyc, pendErr, lastExec, done, hOn, hVars>>
+  /\ UNCHANGED <<tid, mode, rules, maxc, flag, retracted, complete, cancelled, cyc, pendErr, lastExec, pre, done, hOn, hVars>>
 
 EvalEv ==
   /\ Is("eval")
@@ -163,7 +165,7 @@ EvalEv ==
              \cup (IF r \in (prevEvald \ prevCands) /\ T.can THEN {"C02"} ELSE {})
              \cup (IF r \in Names /\ Broken(r) THEN {"C14"} ELSE {}))
   /\ UNCHANGED <<tid, mode, rules, maxc, flag, facts, retracted, complete, cancelled, cyc, execd,
-                 prevEvald, prevCands, pendErr, lastExec, done, hvars>>
+                 prevEvald, prevCands, pendErr, lastExec, pre, done, hvars>>
 
 ExecEv ==
   /\ Is("exec")
@@ -195,7 +197,7 @@ ExecEv ==
              \cup (IF s.comp /\ ~complete THEN {"C10c"} ELSE {})
              \cup (IF s.err THEN {"C14a"} ELSE {})
              \cup (IF cancelled THEN {"C15x"} ELSE {}))
-  /\ cyc' = cyc + 1 /\ execd' = TRUE /\ lastExec' = T.r
+  /\ cyc' = cyc + 1 /\ execd' = TRUE /\ lastExec' = T.r /\ pre' = [f |-> facts, ret |-> retracted, comp |-> complete]
   /\ LET k == IF hOn /\ T.r \in Names /\ ~cancelled
                THEN Invalidations(rules[T.r].a, 1, [f |-> facts, ret |-> retracted, comp |-> complete, err |-> FALSE])
                ELSE 0
@@ -210,13 +212,17 @@ CallEv == /\ Is("call")
                   /\ Check(hUsed + 1 <= hLimit, "C13-evaluated-again-without-invalidation")
              ELSE UNCHANGED <<hUsed, viol>>
           /\ UNCHANGED <<tid, mode, rules, maxc, flag, facts, retracted, complete, cancelled, cyc, evald, cands,
-                         execd, prevEvald, prevCands, pendErr, lastExec, done, marks, seen, hOn, hVars, hLimit, hFresh>>
+                         execd, prevEvald, prevCands, pendErr, lastExec, pre, done, marks, seen, hOn, hVars, hLimit, hFresh>>
 
 CancelEv == /\ Is("cancel")
             /\ cancelled' = TRUE
             /\ Mark({"C15"})
-            /\ UNCHANGED <<tid, mode, rules, maxc, flag, facts, retracted, complete, cyc, evald, cands, execd,
-                           prevEvald, prevCands, pendErr, lastExec, done, viol, hvars>>
+            \* seen by the check at the start of RuleEntry.Execute: the rule announced last does not run
+            /\ IF T.kind = "look:execute" /\ execd
+               THEN facts' = pre.f /\ retracted' = pre.ret /\ complete' = pre.comp /\ pendErr' = ""
+               ELSE UNCHANGED <<facts, retracted, complete, pendErr>>
+            /\ UNCHANGED <<tid, mode, rules, maxc, flag, cyc, evald, cands, execd,
+                           prevEvald, prevCands, lastExec, pre, done, viol, hvars>>
 
 \* ---- return of Execute ----
 Quiescent == evald = Active /\ ~\E r \in Active : Truth(r)
@@ -284,7 +290,7 @@ RetEv ==
                    /\ \E r \in Live : ~Truth(r) THEN {"C11"} ELSE {})
           \cup (IF mode = "fetch" /\ Len(T.matched) >= 2 THEN {"C11o"} ELSE {}))
   /\ UNCHANGED <<tid, mode, rules, maxc, flag, facts, retracted, complete, cancelled, cyc, evald, cands, execd,
-                 prevEvald, prevCands, pendErr, lastExec, hvars>>
+                 prevEvald, prevCands, pendErr, lastExec, pre, hvars>>
 
 Next == Begin \/ SetupFailed \/ CycleEv \/ EvalEv \/ ExecEv \/ CallEv \/ CancelEv \/ RetEv
 Spec == Init /\ [][Next]_vars
